@@ -24,7 +24,16 @@ RULE = ("Wallets: single-key P2PKH / P2WPKH / P2SH-P2WPKH and m-of-n P2SH / P2WS
         "every PSBT byte string the workflow produces plus the PSBT vectors of the repository's tests is "
         "re-serialised; malformed stream = truncation at every offset, byte flips, duplicated / reordered / "
         "dropped entries, wrong key lengths, empty-value duplicates, corrupted and swapped partial signatures; "
-        "finaliser fed with foreign-key, empty and surplus signatures.")
+        "finaliser fed with foreign-key, empty and surplus signatures.  Creator/Updater compared with an "
+        "independent reference for all six own script types and nine foreign output shapes (create / update / "
+        "update twice / partial lookups / witness UTXO already present), the validate flag of create in both "
+        "directions and by default, PSBTs created from signed transactions; one PSBT with inputs of three wallets "
+        "of different types; finalised PSBTs on both sides of combine and partially finalised multi-input PSBTs; "
+        "every refusal path of finalize; extraction of an invalid finalised PSBT; PSBTIn/PSBTOut.validate on the "
+        "product scriptPubKey x UTXO form x RedeemScript x WitnessScript x derivations incl. constructed hash "
+        "coincidences; typed entries duplicated / re-keyed inside valid maps; global xpub shapes and ancestry, "
+        "derivation networks spread over xpubs, inputs and outputs; combine field by field; compact-size boundaries "
+        "0xfc/0xfd/0xffff/0x10000 for lengths and map counts; PSBTs read from the middle of a stream.")
 TRUSTED = ["hashlib / hmac (sha256, ripemd160, sha512) — hash functions are universally quantified in the theorems",
            "oracles of the model, served by the implementation's own Tx methods at run time: Tx.sig_hash_legacy, "
            "Tx.sig_hash_bip143 (C05) and Tx.verify_input (C06/C07); ECDSA verification, SEC/DER parsing and "
@@ -37,6 +46,9 @@ ASSUMPTIONS = ["Python dicts are modelled as key-sorted association lists: inser
                "named_pubs dictionary keys equal the SEC encoding of the stored point (true for parse and update)",
                "PSBT.parse is exercised with network=None (the default)"]
 BUDGET_S = {"quick": 3000, "thorough": 7200}   # wall clock incl. waiting for the shared coq build lock
+# the extraction self-check re-evaluates sampled cases with vm_compute inside Coq: whole-PSBT parse / validate run
+# ECDSA verification and BIP32 derivation on secp256k1 there, which does not finish within the time limit
+VM_SKIP = {"parse", "validate"}
 
 NETS = [None, "mainnet", "testnet"]
 
@@ -568,7 +580,8 @@ def p_workflow(kind_i, m, n, n_inputs, flags):
     need = 1 if single else m
     nsig = 1 if single else n
     try:
-        base = build_psbt(w, n_inputs, salt=kind_i * 16 + m * 4 + n, extras=extras).serialize()
+        built = build_psbt(w, n_inputs, salt=kind_i * 16 + m * 4 + n, extras=extras)
+        base = built.serialize()
     except Exception as e:  # noqa
         return f"PSBT.create/update for a {kind} {m}-of-{n} wallet raises {type(e).__name__}: {e}"
     seen = {base}
@@ -576,6 +589,17 @@ def p_workflow(kind_i, m, n, n_inputs, flags):
         reparse(base)
     except Exception as e:  # noqa
         return f"the updated PSBT of a {kind} {m}-of-{n} wallet does not load again: {type(e).__name__}: {e}"
+    # a signer that owns no key of the PSBT reports False and leaves it alone
+    q = reparse(base)
+    try:
+        with contextlib.redirect_stdout(io.StringIO()):
+            took = q.sign(HDPrivateKey(PrivateKey(0x51515151), b"\x0b" * 32)) if hd else \
+                q.sign_with_private_keys([key(60), key(61)])
+    except Exception as e:  # noqa
+        return f"a signer without keys of the {kind} PSBT raises {type(e).__name__}: {e}"
+    if took or q.serialize() != base:
+        return (f"a signer without keys of the {kind} PSBT "
+                + ("reports that it signed" if took else "changed the PSBT"))
     signed_by = {}
     for j in range(nsig):
         try:
@@ -583,7 +607,20 @@ def p_workflow(kind_i, m, n, n_inputs, flags):
         except Exception as e:  # noqa
             return f"signer {j} of {kind} {m}-of-{n} failed: {type(e).__name__}: {e}"
         seen.add(signed_by[j])
-    sigs_by_input = [dict(pi.sigs) for pi in reparse(combine_bytes(base, list(signed_by.values()))).psbt_ins]
+    everyone = combine_bytes(base, list(signed_by.values()))
+    # all signers on the object create() returned (never serialised and parsed in between): same PSBT
+    try:
+        with contextlib.redirect_stdout(io.StringIO()):
+            for j in range(nsig):
+                if not (built.sign(w.roots[j]) if hd else built.sign_with_private_keys([w.privs[j]])):
+                    return f"signer {j} of {kind} {m}-of-{n} found nothing to sign on the object create() returned"
+            inmem = built.serialize()
+    except Exception as e:  # noqa
+        return f"signing the object create() returned failed: {type(e).__name__}: {e}"
+    if inmem != everyone:
+        return (f"{kind} {m}-of-{n}: signing the object create() returned differs from signing its serialisation "
+                f"and combining")
+    sigs_by_input = [dict(pi.sigs) for pi in reparse(everyone).psbt_ins]
     subsets = [s for r in range(0, nsig + 1) for s in itertools.combinations(range(nsig), r)]
     for sub in subsets:
         orders = list(itertools.permutations(sub)) if (nsig <= 3 and not reduced) else [sub, tuple(reversed(sub))]
@@ -1164,11 +1201,1148 @@ def p_stage_orders(kind_i, m, n, n_inputs, flags):
     return None
 
 
+# ---------------------------------------------------------------- independent reference of create / update
+# What the Updater must leave in every input and output map is computed here from the wallet definition alone
+# (never through PSBT.create / update), for all six script types plus outputs the wallets do not own.
+
+SINGLE = ("p2pkh", "p2wpkh", "p2sh-p2wpkh")
+_OWN = {}
+
+
+def own_wallets():
+    """one wallet per script type; the three single-key ones share a key and the three 2-of-3 ones share their
+    keys, so that one lookup table serves equal-looking outputs of different types"""
+    if not _OWN:
+        for ki, kind in enumerate(KINDS):
+            _OWN[kind] = Wallet(kind, 1, 1, first_key=40) if ki < 3 else Wallet(kind, 2, 3, first_key=41)
+    return _OWN
+
+
+def merged_lookups(wallets, pubs=True, redeem=True, witness=True):
+    pk, rl, wl = {}, {}, {}
+    for w in wallets:
+        a, b, c = w.lookups()
+        pk.update(a), rl.update(b), wl.update(c)
+    return (pk if pubs else {}), (rl if redeem else {}), (wl if witness else {})
+
+
+def ref_named(w, secs, pubs=True):
+    by = {np_.sec(): np_.point.raw_path for np_ in w.named}
+    return [[s, by[s]] for s in sorted(set(secs))] if pubs else []
+
+
+def ref_in(w, funding, idx, pubs=True, redeem=True, witness=True):
+    """the input map after update(): blank input spending output idx of `funding`, which pays to wallet w"""
+    kind = w.kind
+    secs = w.secs[:1] if kind in SINGLE else w.secs
+    if w.redeem is not None and not redeem:
+        return list(BLANK_IN)                       # p2sh without its RedeemScript: nothing can be filled in
+    legacy = kind in ("p2pkh", "p2sh")
+    ws = w.wscript if witness else None
+    if w.wscript is not None and not witness:
+        secs = []
+    return [[un_tx(funding)] if legacy else [], [] if legacy else [un_txout(funding.tx_outs[idx])], [], [],
+            opt(w.redeem, un_script), opt(ws, un_script), ref_named(w, secs, pubs), [], [], []]
+
+
+def ref_out(w, pubs=True, redeem=True, witness=True):
+    kind = w.kind
+    secs = w.secs[:1] if kind in SINGLE else w.secs
+    if w.redeem is not None and not redeem:
+        return list(BLANK_OUT)
+    if w.wscript is not None and not witness:
+        return [opt(w.redeem, un_script), [], [], []]
+    return [opt(w.redeem, un_script), opt(w.wscript, un_script), ref_named(w, secs, pubs), []]
+
+
+BLANK_IN = [[], [], [], [], [], [], [], [], [], []]
+BLANK_OUT = [[], [], [], []]
+
+
+def foreign_outputs():
+    """outputs no wallet of the harness owns, one per script shape the Updater has to tell apart"""
+    return [TxOut(700, P2PKHScriptPubKey(b"\x41" * 20)), TxOut(701, P2WPKHScriptPubKey(b"\x42" * 20)),
+            TxOut(702, P2SHScriptPubKey(b"\x43" * 20)), TxOut(703, P2WSHScriptPubKey(b"\x44" * 32)),
+            TxOut(704, P2TRScriptPubKey(b"\x45" * 32)), TxOut(0, ScriptPubKey([106, b"memo"])),
+            TxOut(705, ScriptPubKey([key(5).point.sec(), 172])), TxOut(706, ScriptPubKey([])),
+            TxOut(707, ScriptPubKey([81, key(5).point.sec(), 81, 174]))]
+
+
+def funding_tx(tag, i, spk, amount=60000):
+    f = Tx(1, [TxIn(bytes([tag % 256, i]) * 16, i)], [TxOut(5000 + i, P2WPKHScriptPubKey(bytes([i + 1]) * 20)),
+                                                     TxOut(amount + i, spk)], 0)
+    f.network = "mainnet"
+    return f
+
+
+def first_diff(got, exp, path=""):
+    if isinstance(got, list) and isinstance(exp, list):
+        if len(got) != len(exp):
+            return f"{path}: {len(got)} item(s), expected {len(exp)}"
+        for k, (a, b) in enumerate(zip(got, exp)):
+            d = first_diff(a, b, f"{path}[{k}]")
+            if d:
+                return d
+        return None
+    if got != exp:
+        return f"{path}: {str(got)[:60]!s} != {str(exp)[:60]!s}"
+    return None
+
+
+IN_FIELDS = ["non-witness utxo", "witness utxo", "partial sigs", "sighash type", "redeem script", "witness script",
+             "bip32 derivations", "final scriptSig", "final witness", "unknown entries"]
+OUT_FIELDS = ["redeem script", "witness script", "bip32 derivations", "unknown entries"]
+
+
+def diff_psbt(got, exp):
+    """first difference between two canonical PSBT values, in words"""
+    if got[0] != exp[0]:
+        return "unsigned transaction: " + str(first_diff(got[0], exp[0]))
+    for name, g, e, fields in (("input", got[1], exp[1], IN_FIELDS), ("output", got[2], exp[2], OUT_FIELDS)):
+        if len(g) != len(e):
+            return f"{len(g)} {name} maps, expected {len(e)}"
+        for i, (a, b) in enumerate(zip(g, e)):
+            for k, f in enumerate(fields):
+                if a[k] != b[k]:
+                    return f"{name} {i}, {f}: {first_diff(a[k], b[k])}"
+    if got[3] != exp[3]:
+        return "global xpubs differ"
+    if got[4] != exp[4]:
+        return "global unknown entries differ"
+    return None
+
+
+def p_update_reference(kind_i, variant):
+    """create / update against the independent reference.  Two inputs spend outputs of wallet `kind`, a third one
+    spends a transaction the Updater is not given; the outputs pay to all six wallets and to nine foreign script
+    shapes.  variant 0: create(tx, lookups); 1: create(tx) then update() twice on the object; 2: update() on the
+    parsed bare PSBT; 3: no redeem / witness script lookups; 4: no pubkey lookup; 5: no tx lookup; 6 (segwit
+    types): the inputs arrive with their witness UTXO and update() gets no tx lookup."""
+    ws = own_wallets()
+    w = ws[KINDS[kind_i]]
+    fundings = [funding_tx(200 + kind_i, i, w.spk) for i in range(2)]
+    unknown = funding_tx(230 + kind_i, 2, w.spk)
+    owned = [ws[k] for k in KINDS]
+    tx = Tx(2, [TxIn(f.hash(), 1) for f in fundings] + [TxIn(unknown.hash(), 1)] +
+            ([TxIn(fundings[0].hash(), 0)] if variant in (0, 1, 2) else []),
+            [TxOut(9000 + i, ow.spk) for i, ow in enumerate(owned)] + foreign_outputs(), 0)
+    tx.network = "mainnet"
+    pubs, redeem, witness, txs = variant != 4, variant != 3, variant != 3, variant != 5
+    pk, rl, wl = merged_lookups(owned, pubs, redeem, witness)
+    tl = {f.hash(): f for f in fundings} if (txs and variant != 6) else {}
+    exp_ins = [ref_in(w, f, 1, pubs, redeem, witness) if txs else list(BLANK_IN) for f in fundings] + [list(BLANK_IN)]
+    if variant in (0, 1, 2):
+        # the same funding transaction again, its output 0: a p2wpkh output of somebody else
+        exp_ins.append([[], [un_txout(fundings[0].tx_outs[0])], [], [], [], [], [], [], [], []])
+    exp_outs = [ref_out(ow, pubs, redeem, witness) for ow in owned] + [list(BLANK_OUT) for _ in foreign_outputs()]
+    exp = [un_tx(tx), exp_ins, exp_outs, [], []]
+    with contextlib.redirect_stdout(io.StringIO()):
+        try:
+            if variant in (0, 3, 4, 5):
+                p = PSBT.create(tx, tx_lookup=tl, pubkey_lookup=pk, redeem_lookup=rl, witness_lookup=wl)
+            elif variant == 1:
+                p = PSBT.create(tx)
+                if un_psbt(p) != [un_tx(tx), [list(BLANK_IN)] * len(exp_ins), [list(BLANK_OUT)] * len(exp_outs), [], []]:
+                    return "create(tx) without lookups is not the bare PSBT"
+                p.update(tl, pk, rl, wl)
+            elif variant == 6:
+                # the witness UTXOs are already in the input maps (written by another Updater); no tx lookup at all
+                p = PSBT.create(tx)
+                for pin, f in zip(p.psbt_ins, fundings):
+                    pin.prev_out = f.tx_outs[1]
+                p = reparse(p.serialize())
+                p.update(tl, pk, rl, wl)
+            else:
+                p = reparse(PSBT.create(tx).serialize())
+                p.update(tl, pk, rl, wl)
+        except Exception as e:  # noqa
+            return f"create/update ({KINDS[kind_i]} inputs, variant {variant}) raises {type(e).__name__}: {str(e)[:120]}"
+        d = diff_psbt(un_psbt(p), exp)
+        if d:
+            return f"create/update ({KINDS[kind_i]} inputs, variant {variant}) differs from the reference: {d}"
+        if variant in (1, 2):
+            p.update(tl, pk, rl, wl)
+            d = diff_psbt(un_psbt(p), exp)
+            if d:
+                return f"a second update() changed the PSBT: {d}"
+        # the amounts and scripts the signer needs without a node
+        for i, f in enumerate(fundings):
+            ti = p.tx_obj.tx_ins[i]
+            if txs and (ti._value != f.tx_outs[1].amount or ti._script_pubkey != f.tx_outs[1].script_pubkey):
+                return f"update() did not record amount / scriptPubKey of input {i} on the transaction input"
+        b = p.serialize()
+        try:
+            q = reparse(b)
+        except Exception as e:  # noqa
+            return f"the updated PSBT does not load: {type(e).__name__}: {str(e)[:120]}"
+        d = diff_psbt(un_psbt(q), exp)
+        if d:
+            return f"the updated PSBT, serialised and parsed, differs from the reference: {d}"
+        if variant == 0:
+            # an input whose scriptPubKey is none of the supported types cannot be updated: ValueError
+            for spk in (P2TRScriptPubKey(b"\x45" * 32), ScriptPubKey([key(5).point.sec(), 172])):
+                f = funding_tx(240 + kind_i, 0, spk)
+                t2 = Tx(2, [TxIn(f.hash(), 1)], [TxOut(100, w.spk)], 0)
+                t2.network = "mainnet"
+                try:
+                    PSBT.create(t2, tx_lookup={f.hash(): f}, pubkey_lookup=pk, redeem_lookup=rl, witness_lookup=wl)
+                except ValueError:
+                    continue
+                except Exception as e:  # noqa
+                    return f"updating an input with an unsupported scriptPubKey raises {type(e).__name__}, not ValueError"
+                return "updating an input with an unsupported scriptPubKey succeeded"
+    return p_reserialize_strict(b)
+
+
+def forged_xpub(w):
+    """a global xpub whose path is an ancestor of the wallet's key paths but which does not derive the keys"""
+    root = HDPrivateKey(PrivateKey(0x77665544), b"\x09" * 32)
+    h = NamedHDPublicKey.from_hd_priv(root, "m/48'/0'/0'/2'")
+    h.add_raw_path_data(hash160(w.secs[0])[:4] + serialize_binary_path("m/48'/0'/0'/2'"), network="mainnet")
+    return h
+
+
+def p_create_validate(kind_i, mode):
+    """PSBT.create(validate=True) must refuse what validate() refuses, create(validate=False) must hand the
+    object back (and validate() / a reload must then refuse it).  mode 0: the pubkey lookup names a key that
+    does not belong to the script; mode 1: a global xpub that claims to be an ancestor of the keys but does not
+    derive them; mode 2: consistent data — both flags succeed; mode 3 / 4: a global xpub at the very path of the
+    first key that is / is not that key (no derivation step left)."""
+    kind = KINDS[kind_i]
+    w = own_wallets()[kind]
+    f = funding_tx(250 + kind_i, 0, w.spk)
+    pk, rl, wl = w.lookups()
+    hd = {}
+    if mode == 0:
+        stranger = NP(named_point(key(9), 0))
+        if kind in SINGLE:
+            pk = {hash160(w.secs[0]): stranger}
+        else:
+            pk = dict(pk)
+            pk[w.secs[1]] = stranger
+    elif mode == 1:
+        h = forged_xpub(w)
+        hd = {h.raw_serialize(): h}
+    elif mode in (3, 4):
+        # a global xpub AT the path of the first key (no derivation step left): that key itself / another key
+        npub = w.named[0].point
+        pt = S256Point.parse(w.secs[0] if mode == 3 else key(9).point.sec())
+        h = HDPublicKey(pt, b"\x21" * 32, len(npub.raw_path[4:]) // 4, b"\x00" * 4, 0, network="mainnet")
+        h.__class__ = NamedHDPublicKey
+        h.add_raw_path_data(npub.raw_path, network="mainnet")
+        hd = {h.raw_serialize(): h}
+    good = mode in (2, 3)
+
+    def mk(flag):
+        tx = Tx(2, [TxIn(f.hash(), 1)], [TxOut(100, w.spk)], 0)
+        tx.network = "mainnet"
+        kw = {} if flag is None else {"validate": flag}
+        return PSBT.create(tx, tx_lookup={f.hash(): f}, pubkey_lookup=pk, redeem_lookup=rl,
+                           witness_lookup=wl, hd_pubs=dict(hd), **kw)
+    with contextlib.redirect_stdout(io.StringIO()):
+        try:
+            p = mk(False)
+        except Exception as e:  # noqa
+            return f"{kind}, mode {mode}: create(validate=False) raises {type(e).__name__}: {str(e)[:100]}"
+        try:
+            mk(True)
+            strict_ok = True
+        except (ValueError, KeyError):
+            strict_ok = False
+        except Exception as e:  # noqa
+            return f"{kind}, mode {mode}: create(validate=True) raises {type(e).__name__}: {str(e)[:100]}"
+        if strict_ok != good:
+            return (f"{kind}, mode {mode}: create(validate=True) "
+                    + ("accepted inconsistent data" if strict_ok else "refused consistent data"))
+        try:
+            mk(None)
+            default_ok = True
+        except Exception:  # noqa
+            default_ok = False
+        if default_ok != strict_ok:
+            return f"{kind}, mode {mode}: create() without the validate argument does not behave like validate=True"
+        try:
+            p.validate()
+            later_ok = True
+        except Exception:  # noqa
+            later_ok = False
+        try:
+            reparse(p.serialize())
+            load_ok = True
+        except Exception:  # noqa
+            load_ok = False
+        if later_ok != good or load_ok != good:
+            return (f"{kind}, mode {mode}: validate() {'accepts' if later_ok else 'refuses'} and parse() "
+                    f"{'accepts' if load_ok else 'refuses'} the PSBT built with validate=False")
+    return None
+
+
+def sign_keys(b, privs):
+    """(signed?, bytes) after sign_with_private_keys on a freshly parsed copy"""
+    p = reparse(b)
+    ok = p.sign_with_private_keys(privs)
+    return ok, p.serialize()
+
+
+_MIXED = {}
+
+
+def mixed_wallet(pos, kind_i):
+    """wallets for the mixed PSBT: the key ranges of the three positions are disjoint"""
+    if (pos, kind_i) not in _MIXED:
+        _MIXED[(pos, kind_i)] = Wallet(KINDS[kind_i], 1, 1, first_key=44 + 4 * pos) if kind_i < 3 else \
+            Wallet(KINDS[kind_i], 2, 3, first_key=44 + 4 * pos)
+    return _MIXED[(pos, kind_i)]
+
+
+def p_mixed_wallets(sel, flags):
+    """ONE PSBT whose inputs belong to three DIFFERENT wallets (sel = three script-type indices, e.g. a legacy,
+    a native segwit and a wrapped segwit one) and whose outputs pay to all three.  Each wallet signs only its own
+    input; all orders of combining give the same bytes; extraction works exactly when every input has its
+    signers; inputs finalised one by one (partially finalised PSBTs, exchanged as bytes and combined in both
+    directions) lead to the same transaction; a signer without keys of the PSBT reports False and changes nothing.
+    flags bit 0: unknown entries in all maps."""
+    wl_ = [mixed_wallet(pos, k) for pos, k in enumerate(sel)]
+    fundings = [funding_tx(180 + 7 * sel[0] + i, i, w.spk, 70000) for i, w in enumerate(wl_)]
+    tx = Tx(2, [TxIn(f.hash(), 1) for f in fundings], [TxOut(50000 + i, w.spk) for i, w in enumerate(wl_)], 0)
+    tx.network = "mainnet"
+    pk, rl, wl = merged_lookups(wl_)
+    with contextlib.redirect_stdout(io.StringIO()):
+        try:
+            p0 = PSBT.create(tx, tx_lookup={f.hash(): f for f in fundings}, pubkey_lookup=pk, redeem_lookup=rl,
+                             witness_lookup=wl)
+        except Exception as e:  # noqa
+            return f"create/update of a PSBT with inputs {[KINDS[k] for k in sel]} raises {type(e).__name__}: {e}"
+        if flags & 1:
+            p0.extra_map[b"\xfc\x05buidl\x01"] = b"mixed"
+            p0.psbt_ins[1].extra_map[b"\x0f\x09"] = b"in"
+            p0.psbt_outs[2].extra_map[b"\xfc\x01q"] = b""
+        base = p0.serialize()
+        exp_ins = [ref_in(w, f, 1) for w, f in zip(wl_, fundings)]
+        got = un_psbt(reparse(base))
+        for i in range(3):
+            if got[1][i][:9] != exp_ins[i][:9]:
+                return f"input {i} ({wl_[i].kind}) of the mixed PSBT is not what the Updater must write"
+        # a signer that holds none of the keys
+        ok, b = sign_keys(base, [key(9), key(30)])
+        if ok or b != base:
+            return "sign_with_private_keys with foreign keys " + ("returned True" if ok else "changed the PSBT")
+        ok, b = sign_keys(base, [])
+        if ok or b != base:
+            return "sign_with_private_keys([]) " + ("returned True" if ok else "changed the PSBT")
+        # every signer alone: only the input of its wallet gains a signature, the one under its key
+        signed = {}
+        need = []
+        for wi, w in enumerate(wl_):
+            single = w.kind in SINGLE
+            need.append(1 if single else w.m)
+            for j in range(1 if single else w.n):
+                ok, b = sign_keys(base, [w.privs[j]])
+                if not ok:
+                    return f"signer {j} of the {w.kind} input found nothing to sign"
+                q = reparse(b)
+                for i, pin in enumerate(q.psbt_ins):
+                    want = [w.secs[j]] if i == wi else []
+                    if sorted(pin.sigs) != want:
+                        return (f"signer {j} of the {w.kind} wallet: input {i} ({wl_[i].kind}) holds signatures of "
+                                f"{len(pin.sigs)} key(s), expected {len(want)}")
+                signed[(wi, j)] = b
+        # all keys in one call = the single-signer PSBTs combined
+        allkeys = [k for w in wl_ for k in (w.privs[:1] if w.kind in SINGLE else w.privs)]
+        ok, all_at_once = sign_keys(base, allkeys)
+        everyone = sorted(signed)
+        full = combine_bytes(base, [signed[s] for s in everyone])
+        if not ok or all_at_once != full:
+            return "signing with all keys in one call differs from combining the PSBTs of the single signers"
+        if combine_bytes(signed[everyone[-1]], [signed[s] for s in reversed(everyone)] + [base]) != full:
+            return "the combined mixed PSBT depends on the order of combining"
+        # exactly the required signers: first `need` of each wallet
+        req = [(wi, j) for wi in range(3) for j in range(need[wi])]
+        comb = combine_bytes(base, [signed[s] for s in req])
+        try:
+            fb, txb, t = finalise_bytes(comb)
+        except Exception as e:  # noqa
+            return f"finalize/final_tx of the fully signed mixed PSBT failed: {type(e).__name__}: {str(e)[:100]}"
+        if not t.verify():
+            return "final transaction of the mixed PSBT does not verify"
+        any_wit = any(w.kind not in ("p2pkh", "p2sh") for w in wl_)
+        if bool(t.segwit) != any_wit:
+            return "segwit flag of the final transaction does not say whether an input carries a witness"
+        for i, w in enumerate(wl_):
+            legacy = w.kind in ("p2pkh", "p2sh")
+            if legacy != (len(t.tx_ins[i].witness.items) == 0) or \
+                    (w.kind in ("p2wpkh", "p2wsh")) != (len(t.tx_ins[i].script_sig.commands) == 0):
+                return f"input {i} ({w.kind}) of the final transaction has its data in the wrong field"
+        if Tx.parse(BytesIO(txb), network="mainnet").serialize() != txb:
+            return "final transaction does not re-serialise"
+        r = p_reserialize_strict(fb)
+        if r:
+            return r
+        # one wallet's signatures missing: no extraction; the other inputs can still be finalised one by one
+        for miss in range(3):
+            part = combine_bytes(base, [signed[s] for s in req if s[0] != miss])
+            try:
+                finalise_bytes(part)
+            except Exception:  # noqa
+                pass
+            else:
+                return f"finalize/final_tx succeeded although the {wl_[miss].kind} input is unsigned"
+            a = reparse(part)
+            for i in range(3):
+                if i != miss:
+                    a.psbt_ins[i].finalize()
+            ab = a.serialize()
+            r = p_reserialize_strict(ab)
+            if r:
+                return f"partially finalised PSBT (input {miss} open): {r}"
+            late = combine_bytes(base, [signed[s] for s in req if s[0] == miss])
+            lp = reparse(late)
+            lp.psbt_ins[miss].finalize()
+            lateb = lp.serialize()                      # only input `miss` finalised, the others unsigned
+            outs = set()
+            for first, second in ((ab, lateb), (lateb, ab), (ab, late), (late, ab)):
+                c = reparse(first)
+                c.combine(reparse(second))
+                c = reparse(c.serialize())
+                for pin in c.psbt_ins:
+                    if pin.script_sig is None:
+                        pin.finalize()
+                try:
+                    outs.add(reparse(c.serialize()).final_tx().serialize())
+                except Exception as e:  # noqa
+                    return (f"partially finalised PSBTs (input {miss} finalised separately) combined: final_tx "
+                            f"fails with {type(e).__name__}: {str(e)[:80]}")
+            if outs != {txb}:
+                return (f"partially finalised PSBTs (input {miss} finalised separately) give another final "
+                        f"transaction than finalising the combined PSBT")
+    return None
+
+
+FAKE_SIG = b"\x30\x06\x02\x01\x05\x02\x01\x07\x01"
+
+
+def p_finalize_errors(kind_i, m, n):
+    """every way an input cannot be finalised: the call raises RuntimeError / ValueError (never returns, never
+    fails with an internal AttributeError / IndexError / TypeError) and leaves the input as it was"""
+    kind = KINDS[kind_i]
+    w = Wallet(kind, m, n, first_key=41) if kind_i >= 3 else own_wallets()[kind]
+    single = kind in SINGLE
+    f = funding_tx(160 + kind_i, 0, w.spk)
+    ti = TxIn(f.hash(), 1)
+    good = ref_in(w, f, 1)
+    good[2] = [[s, FAKE_SIG] for s in sorted(w.secs[: (1 if single else m)])]
+    cases = []
+
+    def variant(what, **kw):
+        v = [list(x) for x in good]
+        for k, x in kw.items():
+            v[int(k[1:])] = x
+        cases.append((what, v))
+    stranger = [[key(30).point.sec(), FAKE_SIG], [key(31).point.sec(), FAKE_SIG]]
+    if w.redeem is not None:
+        variant("RedeemScript missing", f4=[])
+    if w.wscript is not None:
+        variant("WitnessScript missing", f5=[])
+    variant("no signature", f2=[])
+    if single:
+        variant("two signatures on a single-key input", f2=sorted(good[2] + stranger[:1]))
+        variant("three signatures on a single-key input", f2=sorted(good[2] + stranger))
+    else:
+        if m > 1:
+            variant("m-1 signatures", f2=good[2][:-1])
+            variant("m-1 signatures by script keys and one by a foreign key", f2=sorted(good[2][:-1] + stranger[:1]))
+        variant("only foreign-key signatures", f2=sorted(stranger[:min(m, 2)]))
+    for spk, name in ((P2TRScriptPubKey(b"\x45" * 32), "p2tr"), (ScriptPubKey([w.secs[0], 172]), "p2pk"),
+                      (ScriptPubKey([]), "empty")):
+        f2 = funding_tx(170 + kind_i, 0, spk)
+        v = [list(x) for x in good]
+        v[0], v[1], v[4], v[5] = [un_tx(f2)], [], [], []
+        cases.append((f"unsupported scriptPubKey ({name})", v, TxIn(f2.hash(), 1)))
+    with contextlib.redirect_stdout(io.StringIO()):
+        # the complete input does finalise (the cases below fail for the stated reason only)
+        pin = mk_in(good, mk_txin(un_txin(ti)))
+        try:
+            pin.finalize()
+        except Exception as e:  # noqa
+            return f"{kind} {m}-of-{n}: a complete input does not finalise: {type(e).__name__}: {e}"
+        if pin.sigs or pin.redeem_script or pin.witness_script or pin.named_pubs or pin.script_sig is None:
+            return f"{kind} {m}-of-{n}: finalize() left signer data in the input or set no final scriptSig"
+        for c in cases:
+            what, v = c[0], c[1]
+            pin = mk_in(v, mk_txin(un_txin(c[2] if len(c) > 2 else ti)))
+            before = un_in(pin)
+            try:
+                pin.finalize()
+            except (RuntimeError, ValueError):
+                if un_in(pin) != before:
+                    return f"{kind} {m}-of-{n}, {what}: the refused finalize() modified the input"
+                continue
+            except Exception as e:  # noqa
+                return f"{kind} {m}-of-{n}, {what}: finalize() fails with {type(e).__name__} instead of refusing"
+            return f"{kind} {m}-of-{n}, {what}: finalize() succeeded"
+    return None
+
+
+def p_create_from_final(kind_i):
+    """PSBT.create on a transaction that already carries scriptSigs / witnesses (the signed transaction of a
+    finished workflow): they move into the input maps, the embedded transaction is unsigned, the PSBT loads
+    again and gives the same transaction back"""
+    kind = KINDS[kind_i]
+    w = own_wallets()[kind]
+    f = funding_tx(60 + kind_i, 0, w.spk)
+    tx = Tx(2, [TxIn(f.hash(), 1)], [TxOut(100, w.spk)], 0)
+    tx.network = "mainnet"
+    pk, rl, wl = w.lookups()
+    look = dict(tx_lookup={f.hash(): f}, pubkey_lookup=pk, redeem_lookup=rl, witness_lookup=wl)
+    with contextlib.redirect_stdout(io.StringIO()):
+        base = PSBT.create(tx, **look).serialize()
+        signers = [0] if kind in SINGLE else list(range(w.m))
+        comb = combine_bytes(base, [sign_as(base, w, j) for j in signers])
+        fb, txb, t = finalise_bytes(comb)
+        sigs_before = [(un_script(i.script_sig), list(i.witness.items)) for i in t.tx_ins]
+        try:
+            p = PSBT.create(t, **look)
+        except Exception as e:  # noqa
+            return f"{kind}: PSBT.create(signed transaction) raises {type(e).__name__}: {str(e)[:100]}"
+        for i, pin in enumerate(p.psbt_ins):
+            ss, wit = sigs_before[i]
+            if (un_script(pin.script_sig) if pin.script_sig is not None else [[], []]) != ss or \
+                    (list(pin.witness.items) if pin.witness is not None else []) != wit:
+                return f"{kind}: create() did not move scriptSig / witness of input {i} into the input map"
+        b = p.serialize()
+        r = p_reserialize_strict(b)
+        if r:
+            return f"{kind}: PSBT created from a signed transaction: {r}"
+        q = reparse(b)
+        for i, pin in enumerate(q.psbt_ins):
+            ss, wit = sigs_before[i]
+            if (list(pin.witness.items) if pin.witness is not None else []) != wit or \
+                    (un_script(pin.script_sig) if pin.script_sig is not None else [[], []])[0] != ss[0]:
+                return f"{kind}: final scriptSig / witness of input {i} lost in serialize/parse"
+    return None
+
+
+def p_finalised_pairs(kind_i, m, n, n_inputs):
+    """finalised PSBTs as accumulator AND argument.  (a) two finalised PSBTs made from different signer subsets
+    (n > m): combine keeps the accumulator's final scriptSig / witness (fields are only added, never replaced), in
+    both directions and with the non-final stages combined in before or after; (b) n_inputs >= 2: PSBTs in which
+    only one input is finalised, exchanged as bytes, combine in both directions into a PSBT that extracts the
+    same transaction as finalising everything at once; a partially finalised PSBT alone does not extract."""
+    kind = KINDS[kind_i]
+    w = Wallet(kind, m, n, first_key=(kind_i * 5 + m + 3 * n + 2) % 11)
+    single = kind in SINGLE
+    nsig = 1 if single else n
+    need = 1 if single else m
+    with contextlib.redirect_stdout(io.StringIO()):
+        base = build_psbt(w, n_inputs, salt=kind_i * 16 + m * 4 + n + 2).serialize()
+        signed = {j: sign_as(base, w, j) for j in range(nsig)}
+        subs = [tuple(range(need))]
+        if nsig > need:
+            subs.append(tuple(range(nsig - need, nsig)))
+        fin = []
+        for sub in subs:
+            comb = combine_bytes(base, [signed[j] for j in sub])
+            fb, txb, _ = finalise_bytes(comb)
+            fin.append((sub, comb, fb, txb))
+        if len(fin) == 2:
+            if fin[0][3] == fin[1][3]:
+                return "harness: the two signer subsets give the same transaction"
+            for (sa, ca, fa, ta), (sb, cb, fb_, tb) in ((fin[0], fin[1]), (fin[1], fin[0])):
+                for order in ([fb_], [base, fb_], [fb_, cb, base], [cb, fb_]):
+                    acc = reparse(fa)
+                    for o in order:
+                        acc.combine(reparse(o))
+                    try:
+                        got = reparse(acc.serialize()).final_tx().serialize()
+                    except Exception as e:  # noqa
+                        return (f"{kind} {m}-of-{n}: PSBT finalised by signers {sa} combined with the one finalised "
+                                f"by {sb}: final_tx fails ({type(e).__name__}: {str(e)[:80]})")
+                    if got != ta:
+                        return (f"{kind} {m}-of-{n}: PSBT finalised by signers {sa}, combined with the PSBT finalised "
+                                f"by {sb}, no longer extracts its own transaction"
+                                + (" (it extracts the other one)" if got == tb else ""))
+                # a non-final accumulator takes the final fields of the first finalised PSBT it meets
+                acc = reparse(cb)
+                acc.combine(reparse(fa))
+                acc.combine(reparse(fb_))
+                if reparse(acc.serialize()).final_tx().serialize() != ta:
+                    return (f"{kind} {m}-of-{n}: a signed PSBT combined with two finalised PSBTs does not keep the "
+                            f"final fields of the first one")
+        if n_inputs >= 2:
+            sub, comb, fb, txb = fin[0]
+            parts = []
+            for i in range(n_inputs):
+                p = reparse(comb)
+                p.psbt_ins[i].finalize()
+                b = p.serialize()
+                r = p_reserialize_strict(b)
+                if r:
+                    return f"{kind} {m}-of-{n}: PSBT with only input {i} finalised: {r}"
+                try:
+                    reparse(b).final_tx()
+                except Exception:  # noqa
+                    pass
+                else:
+                    return f"{kind} {m}-of-{n}: final_tx succeeded with only input {i} finalised"
+                parts.append(b)
+            for order in (list(range(n_inputs)), list(reversed(range(n_inputs)))):
+                acc = reparse(parts[order[0]])
+                for i in order[1:]:
+                    acc.combine(reparse(parts[i]))
+                try:
+                    got = reparse(acc.serialize()).final_tx().serialize()
+                except Exception as e:  # noqa
+                    return (f"{kind} {m}-of-{n}: partially finalised PSBTs combined in input order {order}: final_tx "
+                            f"fails ({type(e).__name__}: {str(e)[:80]})")
+                if got != txb:
+                    return f"{kind} {m}-of-{n}: partially finalised PSBTs combined in order {order} extract another transaction"
+    return None
+
+
+# ---------------------------------------------------------------- generators for the validators and codecs
+
+
+def wrong_scripts(w):
+    """(redeem scripts, witness scripts) that do not belong to wallet w, of every shape the validators tell apart"""
+    ws = own_wallets()
+    multi = [op_n(1)] + ws["p2sh"].secs + [op_n(3), 174]
+    other_ws = WitnessScript(list(multi))
+    rs = [RedeemScript(list(multi)), RedeemScript([0, hash160(ws["p2sh"].secs[1])]),
+          RedeemScript([0, hash160(ws["p2pkh"].secs[0])]), RedeemScript([0, other_ws.sha256()]),
+          RedeemScript([0, ws["p2wsh"].wscript.sha256()]), ws["p2sh"].redeem, ws["p2sh-p2wsh"].redeem]
+    wss = [other_ws, ws["p2wsh"].wscript]
+    return rs, wss
+
+
+def validate_matrix(ctx):
+    """PSBTIn.validate / PSBTOut.validate on hand-made maps: every scriptPubKey type x UTXO form x RedeemScript x
+    WitnessScript x derivation set, so that both outcomes of every consistency rule are reached"""
+    r = ctx.rng
+    ws = own_wallets()
+    spks = [ws[k].spk for k in KINDS] + [P2TRScriptPubKey(b"\x45" * 32), ScriptPubKey([ws["p2pkh"].secs[0], 172]),
+                                        P2SHScriptPubKey(b"\x43" * 20), P2WSHScriptPubKey(b"\x44" * 32),
+                                        P2WPKHScriptPubKey(hash160(ws["p2sh"].secs[1])),
+                                        # 20-byte witness programs that EQUAL the hash160 of a RedeemScript: only
+                                        # the "RedeemScript defined for non-p2sh ScriptPubKey" rules refuse them
+                                        P2WPKHScriptPubKey(ws["p2sh"].redeem.hash160()),
+                                        P2WPKHScriptPubKey(ws["p2sh-p2wpkh"].redeem.hash160())]
+    # ... and scripts that carry the right hash in the right position without being of the right type
+    own_ws = ws["p2wsh"].wscript
+    rs_x = RedeemScript([0x51, own_ws.sha256()])
+    spks = spks[:-2] + [ScriptPubKey([0xA9, ws["p2sh-p2wsh"].redeem.hash160(), 0x88]), P2TRScriptPubKey(own_ws.sha256()),
+                        P2SHScriptPubKey(rs_x.hash160())] + spks[-2:]
+    rs_all, ws_all = wrong_scripts(ws["p2sh"])
+    rs_opts = [None, ws["p2sh-p2wpkh"].redeem] + rs_all + [rs_x]
+    ws_opts = [None] + ws_all
+    k1, k2, k3 = ws["p2pkh"].named[0], ws["p2sh"].named[1], NP(named_point(key(9), 0))
+    named_opts = [[], [k1], [k2], [k3], [k1, k2], [k2, k3], ws["p2sh"].named, ws["p2sh"].named + [k3]]
+
+    def nm(l):
+        return sorted([n_.sec(), n_.point.raw_path] for n_ in l)
+    combos = list(itertools.product(range(len(spks)), range(7), range(len(rs_opts)), range(len(ws_opts)),
+                                    range(len(named_opts))))
+    # all maps that differ from a consistent one in at most one field, then a random sample of the rest
+    good = {0: (None, None, 1), 1: (None, None, 1), 2: (1, None, 1), 3: (7, None, 6), 4: (None, 2, 6), 5: (8, 2, 6),
+            len(spks) - 2: (7, None, 6), len(spks) - 1: (1, None, 0)}
+    chosen = []
+    for si, (gr, gw, gn) in good.items():
+        gr = 0 if gr is None else gr
+        gw = 0 if gw is None else gw
+        for c in combos:
+            if c[0] == si and sum((c[2] != gr, c[3] != gw, c[4] != gn)) <= 1:
+                chosen.append(c)
+    cs = set(chosen)
+    rest = [c for c in combos if c not in cs]
+    r.shuffle(rest)
+    chosen += rest[: ctx.n(2500, 12000)]
+    for (si, ui, ri, wi, ni) in chosen:
+        f = funding_tx(100 + si, 0, spks[si])
+        ti = TxIn(f.hash(), 1)
+        ptx, pout = [un_tx(f)], [un_txout(f.tx_outs[1])]
+        if ui == 1:
+            ptx = []
+        elif ui == 2:
+            pout = []
+        elif ui == 3:
+            ptx, pout = [], []
+        elif ui == 4:
+            pout = [un_txout(TxOut(f.tx_outs[1].amount + 1, spks[si]))]
+        elif ui == 5:
+            pout = [un_txout(TxOut(f.tx_outs[1].amount, spks[(si + 1) % len(spks)]))]
+        elif ui == 6:
+            ti = TxIn(f.hash(), r.choice([0, 2, 3])) if r.random() < 0.7 else TxIn(bytes(32), 1)
+        v = [ptx, pout, [], [], opt(rs_opts[ri], un_script), opt(ws_opts[wi], un_script), nm(named_opts[ni]),
+             [], [], []]
+        ctx.label("validate-matrix/input")
+        yield ("corr", "in_validate", [v, un_txin(ti)])
+    out_combos = list(itertools.product(range(len(spks)), range(len(rs_opts)), range(len(ws_opts)),
+                                        range(len(named_opts))))
+    for (si, ri, wi, ni) in out_combos:
+        ctx.label("validate-matrix/output")
+        yield ("corr", "out_validate", [[opt(rs_opts[ri], un_script), opt(ws_opts[wi], un_script),
+                                         nm(named_opts[ni]), []], un_txout(TxOut(5, spks[si]))])
+
+
+def serialize_matrix(ctx):
+    """PSBTIn.serialize / PSBTOut.serialize on maps whose optional fields are absent, empty and present, with
+    signatures by keys inside and outside the scripts, sighash types around the 4-byte range"""
+    r = ctx.rng
+    ws = own_wallets()
+    for kind in KINDS:
+        w = ws[kind]
+        f = funding_tx(110, 0, w.spk)
+        good = ref_in(w, f, 1)
+        sig_sets = [[], [[s, FAKE_SIG + bytes([j])] for j, s in enumerate(reversed(w.secs))],
+                    [[w.secs[-1], FAKE_SIG], [key(30).point.sec(), FAKE_SIG]], [[w.secs[0], b""]],
+                    [[key(31).point.sec(), b"\x01"], [key(30).point.sec(), b"\x02"]]]
+        for sigs in sig_sets:
+            for ht in ([], [0], [1], [0x81], [2 ** 32 - 1], [2 ** 32], [-1]):
+                for fin in range(4):
+                    v = [list(x) for x in good]
+                    v[2] = sorted(sigs)
+                    v[3] = ht
+                    if fin & 1:
+                        v[7] = [un_script(Script([b"\x01\x02"]))] if r.random() < 0.5 else [[[], []]]
+                    if fin & 2:
+                        v[8] = [[b"\x03" * 3, b""]] if r.random() < 0.5 else [[]]
+                    if r.random() < 0.3:
+                        v[r.choice([0, 1, 4, 5])] = []
+                    if r.random() < 0.3:
+                        v[9] = [[b"\x0f" + ctx.rbytes(2), ctx.rbytes(3)], [b"\xfc\x00", b""]]
+                        v[9].sort()
+                    ctx.label("serialize-matrix/input")
+                    yield ("corr", "in_serialize", [v])
+        o = ref_out(w)
+        for drop in range(8):
+            v = [list(x) for x in o]
+            for k in range(3):
+                if drop >> k & 1:
+                    v[k] = []
+            ctx.label("serialize-matrix/output")
+            yield ("corr", "out_serialize", [v])
+
+
+XPUB_MAIN, XPUB_TEST = bytes.fromhex("0488b21e"), bytes.fromhex("043587cf")
+
+
+def xpub_entry(version, depth, sec, raw_path, chain=b"\x21" * 32, child=0, parent=b"\x00" * 4):
+    return (b"\x01" + version + bytes([depth % 256]) + parent + child.to_bytes(4, "big") + chain + sec, raw_path)
+
+
+def global_map_cases(ctx):
+    """PSBT.parse: global xpub entries (version, depth against path length, path shapes, key length), derivation
+    paths of different networks spread over xpubs, inputs and outputs, unknown global entries and duplicates"""
+    r = ctx.rng
+    ws = own_wallets()
+    w = ws["p2wsh"]
+    H = 0x80000000
+    le = lambda x: x.to_bytes(4, "little")  # noqa: E731
+    f = funding_tx(120, 0, w.spk)
+    tx = Tx(2, [TxIn(f.hash(), 1)], [TxOut(100, w.spk), TxOut(200, ws["p2wpkh"].spk)], 0)
+    tx.network = "mainnet"
+    base_maps = [[(b"\x00", tx.serialize_legacy())]]
+    ent = lambda k, v: (k, v)  # noqa: E731
+
+    def in_map(paths):
+        m = [ent(b"\x01", f.tx_outs[1].serialize()), ent(b"\x05", w.wscript.raw_serialize())]
+        return m + [ent(b"\x06" + s, p) for s, p in zip(sorted(w.secs), paths)]
+
+    def out_maps(paths):
+        return [[ent(b"\x01", w.wscript.raw_serialize())] + [ent(b"\x02" + s, p) for s, p in zip(sorted(w.secs), paths)],
+                [ent(b"\x02" + ws["p2wpkh"].secs[0], paths[-1])]]
+    fp = b"\xaa\xbb\xcc\xdd"
+    main, test, short, legacy = fp + le(H + 48) + le(H), fp + le(H + 48) + le(H + 1), fp, fp + le(H + 44) + le(H + 1)
+    opts = [main, test, short, legacy]
+    sec = ws["p2pkh"].secs[0]
+    # derivation networks: every pair of positions disagreeing, plus all-equal
+    picks = [[a] * 3 + [b] * 3 for a in opts for b in opts] + \
+            [[r.choice(opts) for _ in range(6)] for _ in range(ctx.n(20, 200))]
+    for pk_ in picks:
+        for xp in (None, main[:12], test[:12]):
+            g = list(base_maps[0])
+            if xp is not None:
+                g.append(xpub_entry(XPUB_MAIN, 2, sec, xp))
+            ctx.label("parse/derivation-networks")
+            yield parse_case(join_maps([g, in_map(pk_[:3])] + out_maps(pk_[3:])))
+    for a in opts:
+        for b in opts:
+            ctx.label("parse/derivation-networks-outputs-only")
+            yield parse_case(join_maps([list(base_maps[0]), in_map([])] + out_maps([a, b, b])))
+            yield parse_case(join_maps([list(base_maps[0]), in_map([])] + [[], out_maps([a, a, b])[1]]))
+    good = [main] * 3
+    for version in (XPUB_MAIN, XPUB_TEST, bytes.fromhex("02aa7ed3"), bytes.fromhex("02575483"), b"\x04\x88\xb2\x1f", b"\x00" * 4):
+        for depth, path in ((0, fp), (1, fp + le(H + 48)), (2, main), (2, test), (1, main), (3, main), (2, main + b"\x00"),
+                            (2, main[:-1]), (0, b""), (0, fp[:3]), (255, main), (2, legacy)):
+            for fp2 in (b"\x11\x22\x33\x44", fp):
+                g = list(base_maps[0]) + [xpub_entry(version, depth, sec, fp2 + path[4:] if len(path) >= 4 else path)]
+                ctx.label("parse/global-xpub-shapes")
+                yield parse_case(join_maps([g, in_map(good)] + out_maps(good)))
+    k, v = xpub_entry(XPUB_MAIN, 2, sec, main)
+    k2, v2 = xpub_entry(XPUB_MAIN, 2, ws["p2sh"].secs[1], main, chain=b"\x22" * 32)
+    variants = [[(k[:-1], v)], [(k + b"\x00", v)], [(k, v), (k, v)], [(k, v), (k2, v2)], [(k2, v2), (k, v)],
+                [(k, v), (k2, test)], [(k2, test), (k, v)], [(k[:46] + b"\x05" + k[47:], v)], [(k[:46] + b"\x02" + b"\x00" * 32, v)],
+                [(b"\x02", b"")], [(b"\x02", b""), (b"\x02", b"x")], [(b"\x02", b"x"), (b"\x02", b"y")],
+                [(b"\xfc\x01", b"a"), (b"\xfc", b"")], [(b"\x00\x00", b"zz")], [(b"\x00", tx.serialize_legacy())]]
+    for extra in variants:
+        for front in (False, True):
+            g = (extra + list(base_maps[0])) if front else (list(base_maps[0]) + extra)
+            ctx.label("parse/global-entry-shapes")
+            b = join_maps([g, in_map(good)] + out_maps(good))
+            yield parse_case(b)
+            yield ("prop", "reserialize", [b])
+    # no unsigned transaction, wrong magic / separator, trailing bytes, too few / too many maps
+    whole = join_maps([list(base_maps[0]), in_map(good)] + out_maps(good))
+    for b in (join_maps([[], in_map(good)] + out_maps(good)), b"psbt\xfe" + whole[5:], b"psbs\xff" + whole[5:], whole[:4],
+              whole[:5], whole + b"\x00", whole + b"\x01", whole[:-1], join_maps([list(base_maps[0]), in_map(good)]),
+              join_maps([list(base_maps[0])])):
+        ctx.label("parse/framing")
+        yield parse_case(b)
+
+
+def psbt_validate_cases(ctx):
+    """PSBT.validate on whole objects: map counts against the transaction, scriptSig in the unsigned transaction,
+    global xpubs that are / are not ancestors of input and output keys and do / do not derive them"""
+    w = Wallet("p2wsh", 2, 2, first_key=6, hd=True)
+    f = funding_tx(171, 0, w.spk)
+    tx = Tx(2, [TxIn(f.hash(), 1)], [TxOut(30000, P2WPKHScriptPubKey(b"\xab" * 20)), TxOut(20000, w.spk)], 0)
+    v = [un_tx(tx), [ref_in(w, f, 1)], [list(BLANK_OUT), ref_out(w)],
+         un_dict(w.hd_pubs, lambda h: [h.raw_serialize(), h.raw_path]), []]
+
+    def case(val):
+        return ("corr", "validate", [val, oracle_table(mk_psbt(val))])
+    ctx.label("validate/hd-wallet")
+    yield case(v)
+    stranger = forged_xpub(own_wallets()["p2pkh"])
+    acct = list(w.hd_pubs.values())
+    fake = []
+    for a in acct:
+        # an xpub with the path of a real account key but another key: claims the wallet's keys, derives none
+        fake.append([stranger.raw_serialize(), a.raw_path])
+    for hd in ([], [[fake[0][0], fake[0]]], [[fake[1][0], fake[1]]], [[stranger.raw_serialize(), [stranger.raw_serialize(), stranger.raw_path]]],
+               v[3][:1], v[3][1:]):
+        v2 = list(v)
+        v2[3] = sorted(hd)
+        ctx.label("validate/xpub-ancestry")
+        yield case(v2)
+        # the same xpubs with the derivations present only in the input / only in the outputs
+        v3 = list(v2)
+        v3[1] = [x[:6] + [[]] + x[7:] for x in v2[1]]
+        yield case(v3)
+        v4 = list(v2)
+        v4[2] = [x[:2] + [[]] + x[3:] for x in v2[2]]
+        yield case(v4)
+    # an extra p2wpkh output whose key is child 5 / child 0x01000005 of the first account key: the claimed index is
+    # the right one, the other one, or differs from the right one only in its top byte
+    a0 = acct[0]
+    kids = {idx: a0.child(idx).point.sec() for idx in (5, 0x01000005)}
+    for real in kids:
+        for claimed in (5, 0x01000005, 0x02000005):
+            t = [list(x) if isinstance(x, list) else x for x in v[0]]
+            t[2] = list(t[2]) + [un_txout(TxOut(777, P2WPKHScriptPubKey(hash160(kids[real]))))]
+            om = [[], [], [[kids[real], a0.raw_path + claimed.to_bytes(4, "little")]], []]
+            ctx.label("validate/derivation-index-top-byte")
+            yield case([t, v[1], v[2] + [om], v[3], v[4]])
+    for dn_in, dn_out in ((1, 0), (-1, 0), (0, 1), (0, -1)):
+        v2 = list(v)
+        v2[1] = (v[1] + [list(BLANK_IN)]) if dn_in > 0 else v[1][:len(v[1]) + dn_in]
+        v2[2] = (v[2] + [list(BLANK_OUT)]) if dn_out > 0 else v[2][:len(v[2]) + dn_out]
+        ctx.label("validate/map-counts")
+        yield case(v2)
+    t = [list(x) if isinstance(x, list) else x for x in v[0]]
+    t[1] = [list(i) for i in t[1]]
+    t[1][0][2] = un_script(Script([b"\x01"]))
+    yield case([t] + v[1:])
+    t2 = [list(x) if isinstance(x, list) else x for x in v[0]]
+    t2[1] = [list(i) for i in t2[1]]
+    t2[1][0][4] = [b"\x01"]                     # a witness on the unsigned transaction's input
+    yield case([t2] + v[1:])
+
+
+
+
+def p_extract_invalid(kind_i, m, n, where):
+    """a finalised PSBT whose signature does not verify is not extracted: the partial signature of one key is
+    replaced IN MEMORY (no reload, so validate() never sees it) by a signature of the same key over another
+    digest; finalize() works on whatever is there, final_tx() must raise"""
+    kind = KINDS[kind_i]
+    w = Wallet(kind, m, n, first_key=(kind_i * 5 + m + 3 * n + 2) % 11)
+    single = kind in SINGLE
+    with contextlib.redirect_stdout(io.StringIO()):
+        base = build_psbt(w, 1, salt=kind_i * 16 + m * 4 + n + 2).serialize()
+        signers = [0] if single else list(range(m))
+        p = reparse(combine_bytes(base, [sign_as(base, w, j) for j in signers]))
+        j = signers[where % len(signers)]
+        sec = w.secs[j]
+        good = p.psbt_ins[0].sigs[sec]
+        z = int.from_bytes(hash160(good) * 2, "big") % (2 ** 255)
+        p.psbt_ins[0].sigs[sec] = w.privs[j].sign(z).der() + good[-1:]
+        try:
+            p.finalize()
+        except Exception as e:  # noqa
+            return f"{kind} {m}-of-{n}: finalize() of an input with enough signatures raises {type(e).__name__}: {e}"
+        try:
+            t = p.final_tx()
+        except RuntimeError:
+            return None
+        except Exception as e:  # noqa
+            return f"{kind} {m}-of-{n}: final_tx() of an invalid finalised PSBT fails with {type(e).__name__}, not RuntimeError"
+        return (f"{kind} {m}-of-{n}: final_tx() returned a transaction although the signature of key {j} does not "
+                f"verify (Tx.verify() says {t.verify()})")
+
+
+def combine_matrix(ctx):
+    """PSBT.combine field by field: every optional field absent / present / present with another value / present
+    but empty, on either side; dictionaries with common keys that carry different values"""
+    ws = own_wallets()
+    w = ws["p2sh-p2wsh"]
+    f = funding_tx(130, 0, w.spk)
+    tx = Tx(2, [TxIn(f.hash(), 1)], [TxOut(100, w.spk)], 0)
+    tx.network = "mainnet"
+    full_in = ref_in(w, f, 1)
+    full_in[0] = [un_tx(f)]
+    s0, s1 = sorted(w.secs)[:2]
+    alt = {0: [[], [un_tx(f)], [un_tx(funding_tx(131, 0, w.spk))]],
+           1: [[], full_in[1], [un_txout(TxOut(1, w.spk))]],
+           2: [[], [[s0, FAKE_SIG]], [[s0, FAKE_SIG + b"\x01"]], [[s0, b""]], [[s1, FAKE_SIG]], [[s0, FAKE_SIG], [s1, b"\x02"]]],
+           3: [[], [0], [1], [0x83]],
+           4: [[], full_in[4], [un_script(ws["p2sh-p2wpkh"].redeem)], [[[], []]]],
+           5: [[], full_in[5], [un_script(WitnessScript([81]))], [[[], []]]],
+           6: [[], full_in[6][:1], [[full_in[6][0][0], full_in[6][0][1] + b"\x00" * 4]], full_in[6][1:]],
+           7: [[], [[[], []]], [un_script(Script([b"\x01"]))], [un_script(Script([b"\x02", b"\x03"]))]],
+           8: [[], [[]], [[b"\x01"]], [[b"", b"\x02\x03"]]],
+           9: [[], [[b"\x0f", b"a"]], [[b"\x0f", b"b"]], [[b"\x0f", b""]], [[b"\x0e", b"c"], [b"\x0f", b"d"]]]}
+    out0 = ref_out(w)
+    alt_out = {0: alt[4], 1: alt[5], 2: alt[6], 3: alt[9]}
+    gx = [[], [[b"\xfc\x01", b"g"]], [[b"\xfc\x01", b"h"]], [[b"\xfc\x01", b""]], [[b"\xfb", b"i"], [b"\xfc\x01", b"j"]]]
+    st = forged_xpub(ws["p2pkh"])
+    hk = st.raw_serialize()
+    ghd = [[], [[hk, [hk, st.raw_path]]], [[hk, [hk, st.raw_path[:4] + b"\x01\x00\x00\x80" + st.raw_path[8:]]]]]
+
+    def psbt(vin, vout, hd=(), extra=()):
+        return [un_tx(tx), [vin], [vout], list(hd), list(extra)]
+    for k, vals in alt.items():
+        for a in vals:
+            for b in vals:
+                va, vb = list(BLANK_IN), list(BLANK_IN)
+                va[k], vb[k] = a, b
+                ctx.label("combine-matrix/input-field")
+                yield ("corr", "combine", [psbt(va, list(BLANK_OUT)), psbt(vb, list(BLANK_OUT))])
+    for k, vals in alt_out.items():
+        for a in vals:
+            for b in vals:
+                va, vb = list(BLANK_OUT), list(BLANK_OUT)
+                va[k], vb[k] = a, b
+                ctx.label("combine-matrix/output-field")
+                yield ("corr", "combine", [psbt(list(BLANK_IN), va), psbt(list(BLANK_IN), vb)])
+    for a in gx:
+        for b in gx:
+            ctx.label("combine-matrix/global")
+            yield ("corr", "combine", [psbt(full_in, out0, extra=a), psbt(list(BLANK_IN), list(BLANK_OUT), extra=b)])
+    for a in ghd:
+        for b in ghd:
+            yield ("corr", "combine", [psbt(list(BLANK_IN), out0, hd=a), psbt(full_in, list(BLANK_OUT), hd=b)])
+    # different numbers of maps on the two sides (zip stops at the shorter one)
+    two = [un_tx(tx), [full_in, list(BLANK_IN)], [out0, out0], [], []]
+    one = psbt(list(BLANK_IN), list(BLANK_OUT))
+    yield ("corr", "combine", [one, two])
+    yield ("corr", "combine", [two, one])
+
+
+def typed_entry_cases(ctx):
+    """complete, VALID input and output maps of every script type (the parsers end with validate(), which would
+    hide a wrong parse of an inconsistent map); then one entry at a time is duplicated (same value next to it /
+    at the end / preceded by an empty value), gets a longer or shorter key, or loses its value; two bytes follow
+    the map so that a parser that lost its position shows up"""
+    ws = own_wallets()
+    e = lambda k, v: encode_varstr(k) + encode_varstr(v)  # noqa: E731
+    tail = b"\x00\xee\xdd"
+
+    def variants(ents):
+        yield ents
+        for i, (k, v) in enumerate(ents):
+            yield ents[:i + 1] + [(k, v)] + ents[i + 1:]
+            yield ents + [(k, v)]
+            yield ents[:i] + [(k, b"")] + ents[i:]
+            yield ents[:i] + [(k + b"\x00", v)] + ents[i + 1:]
+            yield ents[:i] + [(k + b"\x00", v), (k, v)] + ents[i + 1:]
+            if len(k) > 1:
+                yield ents[:i] + [(k[:-1], v)] + ents[i + 1:]
+                yield ents[:i] + [(k[:1] + k[2:], v)] + ents[i + 1:]     # 32 bytes after the type: x-only key
+            yield ents[:i] + [(k, v[:-1])] + ents[i + 1:]
+            yield ents[:i] + [(k, v + b"\x00")] + ents[i + 1:]
+    for kind in KINDS:
+        w = ws[kind]
+        f = funding_tx(132, 0, w.spk)
+        ti = un_txin(TxIn(f.hash(), 1))
+        legacy = kind in ("p2pkh", "p2sh")
+        secs = w.secs[:1] if kind in SINGLE else w.secs
+        paths = dict(ref_named(w, secs))
+        utxo = (b"\x00", f.serialize()) if legacy else (b"\x01", f.tx_outs[1].serialize())
+        scripts = ([(b"\x04", w.redeem.raw_serialize())] if w.redeem else []) + \
+            ([(b"\x05", w.wscript.raw_serialize())] if w.wscript else [])
+        signer = [utxo, (b"\x02" + secs[0], FAKE_SIG), (b"\x03", b"\x01\x00\x00\x00")] + scripts + \
+            [(b"\x06" + s, paths[s]) for s in sorted(secs)] + [(b"\x0f\x01", b"u")]
+        final = [utxo, (b"\x07", b"\x01\x51"), (b"\x08", b"\x02\x01\xaa\x00"), (b"\x09", b"por")]
+        for ents in (signer, final):
+            for vs in variants(ents):
+                ctx.label("typed-entries/input")
+                yield ("corr", "in_parse", [b"".join(e(k, v) for k, v in vs) + tail, ti, 0])
+        to = un_txout(TxOut(100, w.spk))
+        outm = ([(b"\x00", w.redeem.raw_serialize())] if w.redeem else []) + \
+            ([(b"\x01", w.wscript.raw_serialize())] if w.wscript else []) + \
+            [(b"\x02" + s, paths[s]) for s in sorted(secs)] + [(b"\x03", b"x"), (b"\xfc\x01", b"y")]
+        for vs in variants(outm):
+            ctx.label("typed-entries/output")
+            yield ("corr", "out_parse", [b"".join(e(k, v) for k, v in vs) + tail, to, 0])
+    # derivation entries whose key is a well-formed public key of another length (x-only, uncompressed)
+    pt = key(5).point
+    unc = b"\x04" + pt.x.num.to_bytes(32, "big") + pt.y.num.to_bytes(32, "big")
+    path = b"\xaa\xbb\xcc\xdd" + (0x80000030).to_bytes(4, "little") + (0x80000000).to_bytes(4, "little")
+    for body in (pt.sec()[1:], unc, pt.sec(), pt.sec() + b"\x00", b""):
+        ctx.label("typed-entries/derivation-key-forms")
+        yield ("corr", "in_parse", [e(b"\x06" + body, path) + tail, un_txin(TxIn(b"\x33" * 32, 0)), 0])
+        yield ("corr", "in_parse", [e(b"\x02" + body, FAKE_SIG) + tail, un_txin(TxIn(b"\x33" * 32, 0)), 0])
+        yield ("corr", "out_parse", [e(b"\x02" + body, path) + tail, un_txout(TxOut(5, Script([81]))), 0])
+
+
+def segwit_choice_cases(ctx):
+    """PSBT.validate: which digest a partial signature is checked against when ONLY the final witness says that
+    the input is segwit — a wrapped-segwit input that came with a non-witness UTXO, was finalised (RedeemScript
+    and WitnessScript cleared) and then received a partial signature again.  One signature over the legacy digest
+    and one over the BIP143 digest of that state: exactly the second one is acceptable."""
+    ws = own_wallets()
+    for kind in (("p2sh-p2wpkh",) if ctx.tier == "quick" else ("p2sh-p2wpkh", "p2sh-p2wsh")):
+        w = ws[kind]
+        f = funding_tx(140, 0, w.spk)
+        tx = Tx(2, [TxIn(f.hash(), 1)], [TxOut(100, w.spk)], 0)
+        tx.network = "mainnet"
+        with contextlib.redirect_stdout(io.StringIO()):
+            p = mk_psbt([un_tx(tx), [ref_in(w, f, 1)], [ref_out(w)], [], []])
+            signers = w.privs[: (1 if kind in SINGLE else w.m)]
+            p.sign_with_private_keys(signers)
+            partial = un_dict(p.psbt_ins[0].sigs)
+            p.finalize()
+            v = un_psbt(p)
+            v[1][0][0], v[1][0][1] = [un_tx(f)], []              # non-witness UTXO only
+            q = mk_psbt(v)
+            zl = q.tx_obj.sig_hash_legacy(0, None)
+            zs = q.tx_obj.sig_hash_bip143(0, None, None)
+        sec = w.secs[0]
+        for what, sigs in (("none", []), ("legacy-digest", [[sec, w.privs[0].sign(zl).der() + b"\x01"]]),
+                           ("bip143-digest", [[sec, w.privs[0].sign(zs).der() + b"\x01"]]), ("signer", partial)):
+            v2 = [v[0], [v[1][0][:2] + [sigs] + v[1][0][3:]], v[2], v[3], v[4]]
+            ctx.label("validate/final-witness-decides-digest")
+            yield ("corr", "validate", [v2, oracle_table(mk_psbt(v2))])
+            yield ("corr", "serialize", [v2])
+
+
+
+
+def p_digest_choice(kind_i):
+    """A wrapped-segwit input that came with a non-witness UTXO, was finalised (scripts cleared, final witness
+    present) and then received a partial signature again is still a segwit input: validate() accepts a partial
+    signature over the BIP143 digest of that state and refuses one over the legacy digest (digests from
+    Tx.sig_hash_bip143 / Tx.sig_hash_legacy, which this property trusts)."""
+    kind = KINDS[kind_i]
+    w = own_wallets()[kind]
+    f = funding_tx(140, 0, w.spk)
+    tx = Tx(2, [TxIn(f.hash(), 1)], [TxOut(100, w.spk)], 0)
+    tx.network = "mainnet"
+    with contextlib.redirect_stdout(io.StringIO()):
+        p = mk_psbt([un_tx(tx), [ref_in(w, f, 1)], [ref_out(w)], [], []])
+        p.sign_with_private_keys(w.privs[: (1 if kind in SINGLE else w.m)])
+        p.finalize()
+        v = un_psbt(p)
+        v[1][0][0], v[1][0][1] = [un_tx(f)], []
+        q = mk_psbt(v)
+        zl = q.tx_obj.sig_hash_legacy(0, None)
+        zs = q.tx_obj.sig_hash_bip143(0, None, None)
+        for what, z, want in (("legacy", zl, False), ("BIP143", zs, True)):
+            q = mk_psbt(v)
+            q.psbt_ins[0].sigs = {w.secs[0]: w.privs[0].sign(z).der() + b"\x01"}
+            try:
+                q.validate()
+                ok = True
+            except Exception:  # noqa
+                ok = False
+            if ok != want:
+                return (f"{kind}: finalised input with a non-witness UTXO: a partial signature over the {what} "
+                        f"digest is {'accepted' if ok else 'refused'}")
+    return None
+
+
+
+
+def p_stream_position(b, npre, suffix):
+    """PSBT.parse on a stream that holds other bytes before and after the PSBT: the result is the same PSBT and the
+    stream stands exactly behind it"""
+    try:
+        want = reparse(b).serialize()
+    except Exception:  # noqa
+        return None
+    st = BytesIO(bytes(range(7, 7 + npre)) + b + suffix)
+    st.seek(npre)
+    with contextlib.redirect_stdout(io.StringIO()):
+        try:
+            p = PSBT.parse(st)
+        except Exception as e:  # noqa
+            return f"a PSBT that loads on its own does not load from the middle of a stream: {type(e).__name__}: {e}"
+    if st.tell() != npre + len(b):
+        return f"parse() left the stream at offset {st.tell() - npre} of a {len(b)}-byte PSBT"
+    if p.serialize() != want:
+        return "the PSBT parsed from the middle of a stream serialises differently"
+    return None
+
+
+def boundary_cases(ctx):
+    """compact-size boundaries: key / value lengths 0xfc, 0xfd, 0xfe, 0xffff, 0x10000 in the generic layer and in
+    all three map kinds of a whole PSBT; 0xfc / 0xfd inputs and outputs"""
+    for n in (0xFC, 0xFD, 0xFE, 0xFFFF, 0x10000):
+        val = bytes([n % 251]) * n
+        s = encode_varstr(b"\x0f\x01") + encode_varstr(val) + b"\x00"
+        ctx.label("boundary/value-length")
+        yield ("corr", "kv_parse", [s])
+        yield ("corr", "kv_parse", [s[:-2]])
+        yield ("corr", "kv_serialize", [[[b"\x0f\x01", val]]])
+        if n <= 0xFE:
+            k = b"\x0f" + bytes([n % 251]) * (n - 1)
+            ctx.label("boundary/key-length")
+            yield ("corr", "kv_parse", [encode_varstr(k) + encode_varstr(b"v") + b"\x00"])
+            yield ("corr", "kv_serialize", [[[k, b"v"]]])
+    w = own_wallets()["p2wpkh"]
+    f = funding_tx(150, 0, w.spk)
+    tx = Tx(2, [TxIn(f.hash(), 1)], [TxOut(100, w.spk)], 0)
+    tx.network = "mainnet"
+    for n in (0xFC, 0xFD, 0x10000):
+        val = b"\x5a" * n
+        maps = [[(b"\x00", tx.serialize_legacy()), (b"\xfc\x01", val)],
+                [(b"\x01", f.tx_outs[1].serialize()), (b"\x0f", val)], [(b"\x09", val)]]
+        b = join_maps(maps)
+        ctx.label("boundary/psbt-with-long-unknown-values")
+        yield parse_case(b)
+        yield ("prop", "reserialize", [b])
+        yield ("prop", "stream_position", [b, 2, b"\x00"])
+    for nin, nout in ((0xFC, 1), (0xFD, 1), (1, 0xFC), (1, 0xFD)):
+        t = Tx(2, [TxIn(bytes([i % 256, i // 256]) * 16, i) for i in range(nin)],
+               [TxOut(1000 + i, w.spk) for i in range(nout)], 0)
+        b = join_maps([[(b"\x00", t.serialize_legacy())]] + [[] for _ in range(nin + nout)])
+        ctx.label("boundary/map-counts")
+        yield ("prop", "reserialize", [b])
+        yield ("prop", "stream_position", [b, 1, b"\xff"])
+        yield parse_case(b)
+        yield parse_case(b[:-1])
+
+
 PROPS = {"workflow": p_workflow, "reuse_workflow": p_reuse_workflow, "stage_orders": p_stage_orders,
          "inmem_p2sh_p2wpkh": p_inmem_p2sh_p2wpkh, "reserialize": p_reserialize, "segwit_flag": p_segwit_flag,
          "scriptsig_rejected": p_scriptsig_rejected, "bad_sig": p_bad_sig,
          "finalize_threshold": p_finalize_threshold, "xpub_order": p_xpub_order,
-         "nonwitness_utxo_segwit": p_nonwitness_utxo_segwit}
+         "nonwitness_utxo_segwit": p_nonwitness_utxo_segwit,
+         "update_reference": p_update_reference, "create_validate": p_create_validate,
+         "mixed_wallets": p_mixed_wallets, "finalize_errors": p_finalize_errors,
+         "create_from_final": p_create_from_final, "finalised_pairs": p_finalised_pairs,
+         "extract_invalid": p_extract_invalid, "digest_choice": p_digest_choice,
+         "stream_position": p_stream_position}
 
 
 def classify(v):
@@ -1359,9 +2533,10 @@ def finalize_cases(ctx):
     for kind_i, kind in enumerate(KINDS):
         for (m, n) in ([(1, 1)] if kind_i < 3 else [(1, 1), (1, 2), (2, 2), (2, 3), (3, 3), (1, 3)]):
             w = Wallet(kind, m, n, first_key=1)
-            p = build_psbt(w, 1, salt=150 + kind_i)
-            pin = p.psbt_ins[0]
-            ti = un_txin(p.tx_obj.tx_ins[0])
+            f = funding_tx(150 + kind_i, 0, w.spk)
+            ti_obj = TxIn(f.hash(), 1)
+            pin = mk_in(ref_in(w, f, 1), ti_obj)          # the updated input, built without create / update
+            ti = un_txin(ti_obj)
             cands = [s for s in w.secs] + [key(30).point.sec(), key(31).point.sec()]
             for mask in range(1 << len(cands)):
                 if bin(mask).count("1") > 4:
@@ -1403,6 +2578,7 @@ def workflow_grid(ctx):
                 grid.append((kind_i, m, n, 1, 1 if (m + n) % 2 else 0))
         grid.append((kind_i, 2, 3, 2 if quick else 3, 5))
     grid.append((4, 2, 2, 1, 2 | 1 | 4))       # HD wallet, global xpubs, PSBT.sign(hd_priv)
+    grid.append((3, 1, 1, 1, 2 | 4))           # HD wallet, legacy signature through PSBT.sign(hd_priv)
     if not quick:
         grid.append((3, 2, 3, 1, 2 | 4))
         grid.append((5, 1, 2, 2, 2 | 1 | 4))
@@ -1498,10 +2674,66 @@ def generate(ctx):
     yield ("prop", "xpub_order", [1])
     for kind_i in (1, 2, 4, 5):
         yield ("prop", "nonwitness_utxo_segwit", [kind_i])
+    # ---- Creator / Updater against the independent reference; the validate flag; signed transactions as input
+    for kind_i in range(6):
+        for variant in ((0, 1 + kind_i % 2) if quick else (0, 1, 2)):
+            ctx.label("update-reference/" + KINDS[kind_i])
+            yield ("prop", "update_reference", [kind_i, variant])
+    for kind_i, variant in ((2, 3), (3, 3), (4, 3), (5, 3), (0, 4), (4, 4), (1, 5), (3, 5)) if quick else \
+            [(k, v) for k in range(6) for v in (3, 4, 5)]:
+        ctx.label("update-reference/partial-lookups")
+        yield ("prop", "update_reference", [kind_i, variant])
+    for kind_i in (1, 2, 4, 5):
+        ctx.label("update-reference/witness-utxo-present")
+        yield ("prop", "update_reference", [kind_i, 6])
+    for kind_i in range(6):
+        for mode in (0, 2, 3, 4, 1):
+            if mode == 1 and quick and kind_i not in (1, 3):
+                continue
+            if mode in (3, 4) and quick and kind_i not in (0, 4):
+                continue
+            ctx.label("create-validate-flag")
+            yield ("prop", "create_validate", [kind_i, mode])
+    for kind_i in ((0, 1, 5) if quick else range(6)):
+        ctx.label("create-from-signed-tx")
+        yield ("prop", "create_from_final", [kind_i])
+    # ---- every way an input cannot be finalised
+    for kind_i in range(6):
+        for (m, n) in ([(1, 1)] if kind_i < 3 else [(1, 1), (1, 2), (2, 2), (2, 3), (3, 3)]):
+            ctx.label("finalize-errors/" + KINDS[kind_i])
+            yield ("prop", "finalize_errors", [kind_i, m, n])
+    for kind_i in ((2,) if quick else (2, 5)):
+        ctx.label("digest-choice/final-witness-only")
+        yield ("prop", "digest_choice", [kind_i])
+    # ---- a finalised PSBT with a signature that does not verify is not extracted
+    for g in ((0, 1, 1, 0), (4, 2, 3, 1), (5, 2, 2, 0), (3, 2, 3, 0)) if quick else \
+            [(k, 1, 1, 0) for k in range(3)] + [(k, m_, n_, x) for k in (3, 4, 5) for (m_, n_) in ((1, 1), (2, 2), (2, 3))
+                                                 for x in range(m_)]:
+        ctx.label("extract-invalid")
+        yield ("prop", "extract_invalid", list(g))
+    # ---- inputs of different wallets and script types in one PSBT
+    for sel, flags in (((0, 4, 2), 1), ((3, 1, 5), 0)) if quick else \
+            (((0, 4, 2), 1), ((3, 1, 5), 0), ((2, 0, 3), 0), ((5, 4, 1), 1), ((1, 1, 3), 0), ((4, 5, 0), 0)):
+        ctx.label("mixed-wallets")
+        yield ("prop", "mixed_wallets", [list(sel), flags])
+    # ---- validators, serialisers and the global map on hand-made maps
+    yield from validate_matrix(ctx)
+    yield from serialize_matrix(ctx)
+    yield from global_map_cases(ctx)
+    yield from psbt_validate_cases(ctx)
+    yield from segwit_choice_cases(ctx)
+    yield from combine_matrix(ctx)
+    yield from typed_entry_cases(ctx)
+    yield from boundary_cases(ctx)
     # ---- combine over PSBTs of different workflow stages (bare, updated, signed), every accumulator, every order
     for g in stage_grid(ctx):
         ctx.label(f"stage-orders/{KINDS[g[0]]}")
         yield ("prop", "stage_orders", list(g))
+    # ---- finalised PSBTs on both sides of combine; partially finalised multi-input PSBTs
+    for g in ((3, 2, 3, 1), (4, 2, 3, 1), (5, 2, 3, 1), (3, 1, 2, 2), (4, 1, 2, 2), (5, 1, 2, 2), (0, 1, 1, 2), (1, 1, 1, 2),
+              (2, 1, 1, 2)) + (() if quick else ((3, 2, 3, 2), (4, 1, 3, 1), (5, 2, 4, 2), (4, 3, 4, 1), (2, 1, 1, 3))):
+        ctx.label("finalised-pairs/" + KINDS[g[0]])
+        yield ("prop", "finalised_pairs", list(g))
     # ---- the workflow on ONE reused object per role (signer, accumulator, finaliser, editor)
     for g in reuse_grid(ctx):
         ctx.label(f"reuse-workflow/{KINDS[g[0]]}")
@@ -1531,6 +2763,10 @@ def generate(ctx):
             if c[1] == "parse":
                 vectors.append(c[2][0])
             yield c
+    # ---- PSBTs of every stage read from the middle of a stream
+    for k, b in enumerate(vectors[:: max(1, len(vectors) // ctx.n(12, 60))]):
+        ctx.label("stream-position")
+        yield ("prop", "stream_position", [b, k % 4, [b"", b"\x00", b"psbt\xff", b"\x01\x00"][k % 4]])
     # ---- corrupted partial signatures
     for kind_i in range(6):
         for mode in range(4):
